@@ -1,7 +1,11 @@
 // c05child drives the REAL lintcmd/cache code for the C05 check.
 //
-//	c05child op put  <dir> <idhex> <datafile> [file]   one cache.Put between two marker syscalls (run under strace)
+//	c05child op put  <dir> <idhex> <datafile> [file]   one cache.Put between two marker syscalls (run under strace);
+//	                                                   then the path cache.OutputFile(out) is opened and read as lintcmd/runner does
+//	c05child op putflaky <dir> <idhex> <datafile> <data2file>  Put from a source that yields data2 on its second pass
 //	c05child op look <dir> <idhex>                     Get / GetFile(+open+read) / GetBytes, one output line
+//	c05child op getfile-hold <dir> <idhex>             GetFile, print the path, wait for a line on stdin, then open+read the path
+//	c05child op trim <dir> x                           one real Trim (trim.txt removed first)
 //	c05child batch                                     line commands on stdin, one output line each (in-process, volume)
 //	c05child worker <dir> <seed> <nops> <roles> <nkeys>  concurrency worker with the oracle evaluated on every hit
 //
@@ -22,6 +26,7 @@ import (
 	"sort"
 	"strconv"
 	"strings"
+	"time"
 
 	"honnef.co/go/tools/lintcmd/cache"
 )
@@ -84,6 +89,57 @@ func look(c cache.Cache, id cache.ActionID) (string, [][]byte) {
 	return sb.String(), hits
 }
 
+// readOutputFile does what lintcmd/runner does with the result of a successful Put: it
+// takes the path c.OutputFile(out) and later opens and reads it (no size check).
+func readOutputFile(c cache.Cache, out cache.OutputID) string {
+	data, err := os.ReadFile(c.OutputFile(out))
+	if err != nil {
+		return "outfile=openerr"
+	}
+	return fmt.Sprintf("outfile=hit:%s:%d", sum(data), len(data))
+}
+
+// flakySource yields a on the first pass and b after the second Seek to the start: the
+// caller of Put breaks the contract "the content of file must not change between the
+// two passes".
+type flakySource struct {
+	a, b  []byte
+	seeks int
+	r     *bytes.Reader
+}
+
+func (f *flakySource) Seek(off int64, whence int) (int64, error) {
+	if off == 0 && whence == io.SeekStart {
+		f.seeks++
+		if f.seeks >= 2 {
+			f.r = bytes.NewReader(f.b)
+		} else {
+			f.r = bytes.NewReader(f.a)
+		}
+		return 0, nil
+	}
+	if f.r == nil {
+		f.r = bytes.NewReader(f.a)
+	}
+	return f.r.Seek(off, whence)
+}
+
+func (f *flakySource) Read(p []byte) (int, error) {
+	if f.r == nil {
+		f.r = bytes.NewReader(f.a)
+	}
+	return f.r.Read(p)
+}
+
+// indexTS returns the time stamp field of the index entry of id ("-" if unreadable).
+func indexTS(dir string, id cache.ActionID) string {
+	b, err := os.ReadFile(cachePath(dir, fmt.Sprintf("%x-a", id[:])))
+	if err != nil || len(b) != 175 {
+		return "-"
+	}
+	return strings.TrimSpace(string(b[154:174]))
+}
+
 func openCache(dir string) *cache.DiskCache {
 	if err := os.MkdirAll(dir, 0777); err != nil {
 		fatal("%v", err)
@@ -126,8 +182,56 @@ func opMode(args []string) {
 		if err != nil {
 			fmt.Printf("put err %v\n", err)
 		} else {
-			fmt.Printf("put ok %x %d\n", out[:], size)
+			fmt.Printf("put ok %x %d %s\n", out[:], size, readOutputFile(c, out))
 		}
+	case "putflaky":
+		if len(args) < 5 {
+			fatal("usage")
+		}
+		c := openCache(args[1])
+		id := parseID(args[2])
+		d1, err := os.ReadFile(args[3])
+		if err != nil {
+			fatal("%v", err)
+		}
+		d2, err := os.ReadFile(args[4])
+		if err != nil {
+			fatal("%v", err)
+		}
+		rs := &flakySource{a: d1, b: d2}
+		marker("BEGIN")
+		out, size, err := c.Put(id, rs)
+		marker("END")
+		if err != nil {
+			fmt.Printf("put err %x %d\n", out[:], size)
+		} else {
+			fmt.Printf("put ok %x %d %s\n", out[:], size, readOutputFile(c, out))
+		}
+	case "getfile-hold":
+		c := openCache(args[1])
+		file, _, err := cache.GetFile(c, parseID(args[2]))
+		if err != nil {
+			fmt.Println("miss")
+		} else {
+			fmt.Println("path " + file)
+		}
+		os.Stdout.Sync()
+		bufio.NewReader(os.Stdin).ReadString('\n')
+		if err == nil {
+			data, err := os.ReadFile(file)
+			if err != nil {
+				fmt.Println("read=openerr")
+			} else {
+				fmt.Printf("read=hit:%s:%d\n", sum(data), len(data))
+			}
+		}
+	case "trim":
+		c := openCache(args[1])
+		os.Remove(filepath.Join(args[1], "trim.txt"))
+		marker("BEGIN")
+		c.Trim()
+		marker("END")
+		fmt.Println("trim ok")
 	case "look":
 		c := openCache(args[1])
 		marker("BEGIN")
@@ -196,7 +300,27 @@ func batchMode() {
 				if err != nil {
 					res = "err"
 				} else {
-					res = fmt.Sprintf("ok %x %d", o[:], n)
+					res = fmt.Sprintf("ok %x %d %s %s", o[:], n, indexTS(dir, parseID(t[1])), readOutputFile(c, o))
+				}
+			case t[0] == "putflaky" && len(t) == 4 && c != nil: // putflaky <idhex> <datahex> <data2hex>
+				d1, err1 := hex.DecodeString(t[2])
+				d2, err2 := hex.DecodeString(t[3])
+				if err1 != nil || err2 != nil {
+					fatal("bad data hex")
+				}
+				o, n, err := c.Put(parseID(t[1]), &flakySource{a: d1, b: d2})
+				if err != nil {
+					res = fmt.Sprintf("err %x %d", o[:], n)
+				} else {
+					res = fmt.Sprintf("ok %x %d %s %s", o[:], n, indexTS(dir, parseID(t[1])), readOutputFile(c, o))
+				}
+			case t[0] == "age" && len(t) == 3 && c != nil: // age <basename> <seconds>: mtime := now - seconds
+				sec, _ := strconv.ParseInt(t[2], 10, 64)
+				tm := time.Now().Add(-time.Duration(sec) * time.Second)
+				if err := os.Chtimes(cachePath(dir, t[1]), tm, tm); err != nil {
+					res = "err"
+				} else {
+					res = "ok"
 				}
 			case t[0] == "putfile" && len(t) == 3 && c != nil: // put <idhex> <path>
 				data, err := os.ReadFile(t[2])
@@ -207,7 +331,7 @@ func batchMode() {
 				if err != nil {
 					res = "err"
 				} else {
-					res = fmt.Sprintf("ok %x %d", o[:], n)
+					res = fmt.Sprintf("ok %x %d %s %s", o[:], n, indexTS(dir, parseID(t[1])), readOutputFile(c, o))
 				}
 			case t[0] == "look" && len(t) == 2 && c != nil:
 				res, _ = look(c, parseID(t[1]))
